@@ -283,6 +283,7 @@ func runTrace(spec traceSpec, mode string, verbose bool) (res traceResult) {
 		res.WallMs = time.Since(t0).Milliseconds()
 	}()
 	if spec.Steps != nil {
+		c.scripted = true
 		for _, raw := range spec.Steps {
 			if strings.HasPrefix(raw, "expect:") || raw == "" {
 				continue
@@ -639,6 +640,24 @@ func (s *scheduler) pick() string {
 				}
 			case "addfollower":
 				add("af", 12)
+			}
+		}
+	}
+	// a NewTerm request of the current term to a node that no catch-up loop of the current election stands for (a
+	// retry loop left over from an older election)
+	if el != nil && el.phase == "idle" && !c.swapRunning() {
+		c.mu.Lock()
+		var strays []int
+		for _, g := range c.gates {
+			if g.kind == "newterm" && g.fromInc == c.coordInc && g.term == el.term && g.ctx.Err() == nil && g.to != el.leader {
+				strays = append(strays, g.to)
+			}
+		}
+		c.mu.Unlock()
+		sort.Ints(strays)
+		for _, x := range strays {
+			if _, fol := el.followers[x]; c.findCatchup(x) == nil && !(fol && contains(el.ens, x)) && c.reachable(0, x) && !c.busy(x) {
+				add(fmt.Sprintf("cu:%d", x), 8)
 			}
 		}
 	}
